@@ -46,3 +46,20 @@ Definition check_unit (clamp : bool) (c : list Z * uobs * uobs) : bool :=
   let '(data, dobs, sobs) := c in
   let '(md, ms) := model_unit clamp data in
   uobs_eqb md dobs && uobs_eqb ms sobs.
+
+(* ---- generic: any description program against the real function it models ---- *)
+Definition root_tf (s : st) : Z * fields := match root s with VC ty f => (ty, f) | _ => (0, []) end.
+
+(* deserialise the bytes; when that verifies, serialise the resulting description *)
+Definition model_prog (p : prog unit) (data : list Z) : obs * obs :=
+  match run_des p (bits_of_bytes data) with
+  | Err e => (ObsErr (err_code e), ObsErr (-1))
+  | Ok (u, s) =>
+      (obs_des (Ok (u, s)),
+       if vcode s =? 0 then let '(ty, f) := root_tf s in obs_ser (run_ser [] p ty f) else ObsErr (-1))
+  end.
+
+Definition check_prog (c : prog unit * list Z * obs * obs) : bool :=
+  let '(p, data, dobs, sobs) := c in
+  let '(md, ms) := model_prog p data in
+  obs_eqb md dobs && obs_eqb ms sobs.
